@@ -1,6 +1,7 @@
 package simapi
 
 import (
+	"fmt"
 	"sync"
 
 	"k8s.io/apimachinery/pkg/runtime"
@@ -67,7 +68,16 @@ func (w *watcher) Stop() {
 
 func (w *watcher) ResultChan() <-chan watch.Event { return w.ch }
 
+type histEv struct {
+	rv uint64
+	ev watch.Event
+}
+
 func (s *Server) notify(res Res, t watch.EventType, o runtime.Object) {
+	if s.KeepHistory {
+		// events are replayed to watches that start from an older resourceVersion (list-then-watch)
+		s.history[res] = append(s.history[res], histEv{s.rv, watch.Event{Type: t, Object: o}})
+	}
 	ws := s.watchers[res]
 	if len(ws) == 0 {
 		return
@@ -85,6 +95,15 @@ func (s *Server) reactWatch(a ktesting.Action, pc bool) (bool, watch.Interface, 
 	s.mu.Lock()
 	defer s.mu.Unlock()
 	w := newWatcher(a.GetNamespace())
+	if wa, ok := a.(ktesting.WatchActionImpl); ok && wa.WatchRestrictions.ResourceVersion != "" {
+		var from uint64
+		fmt.Sscan(wa.WatchRestrictions.ResourceVersion, &from)
+		for _, h := range s.history[res] {
+			if h.rv > from && (w.ns == "" || w.ns == acc(h.ev.Object).GetNamespace()) {
+				w.push(watch.Event{Type: h.ev.Type, Object: h.ev.Object.DeepCopyObject()})
+			}
+		}
+	}
 	s.watchers[res] = append(s.watchers[res], w)
 	return true, w, nil
 }
